@@ -33,6 +33,9 @@ def gen_pump_case(rng: random.Random):
     mw = rng.random() < 0.3
     hk = rng.choice(["s", "s", "a"])
     handler = ["s", gen_resp(rng)] if hk == "s" else ["a"]
+    if hk == "s" and rng.random() < 0.12:
+        # bodies around and far beyond the TLS record and flush sizes
+        handler = ["s", [20, "application/octet-stream", ["z", rng.choice([16383, 16384, 16385, 70000, 262144, 600000, 1100000])]]]
     post = []
     if mw:
         post.append(rng.choice([["ma"], ["ma"], ["mr"], ["md", "53 Access denied\r\n"], ["mn"]]))
@@ -97,6 +100,15 @@ class PumpFamily(Family):
             return ("malformed-response", f"body of {len(pr[2])} bytes with status {pr[0]}")
         if not obs["tcpclosed"]:
             return ("no-close", "response sent but the TCP connection was not closed")
+        h = case["handler"]
+        if h[0] == "s" and obs["h"] == 1 and isinstance(h[1][0], int) and 20 <= h[1][0] <= 29 and h[1][2] is not None and pr[0] == h[1][0]:
+            b = h[1][2]
+            try:
+                want = b[1].encode("utf-8") if b[0] == "s" else (b"Z" * b[1] if b[0] == "z" else bytes.fromhex(b[1]))
+            except UnicodeEncodeError:
+                want = None
+            if want is not None and pr[2] != want:
+                return ("half-written", f"handler returned a body of {len(want)} bytes, the peer decrypted {len(pr[2])} bytes before the close")
         return None
 
     @staticmethod
